@@ -30,7 +30,7 @@ for p in props:
     if p not in meta and p not in [x["property_id"] for x in na]:
         raise SystemExit("property %s neither claimed nor not_applicable" % p)
 import subprocess
-hooks_commits = {"source_commits": [l.split()[0] for l in subprocess.run(["git", "-C", "/repo", "log", "--format=%h %s"], capture_output=True, text=True).stdout.splitlines() if " verif hook:" in " " + l]}
+hooks_commits = {"source_commits": [l.split()[0] for l in subprocess.run(["git", "-C", "/repo", "log", "--format=%h %s"], capture_output=True, text=True).stdout.splitlines() if " verif hook:" in " " + l or " verif hooks:" in " " + l]}
 man = {
     "version": 1,
     "setup_cmd": "mkdir -p /verif/evidence && python3 -m py_compile /verif/verif.py",
